@@ -132,6 +132,20 @@ def case_seed(seed, tier, shard, i):
     return (seed * 1_000_003 + (shard or 0) * 7919 + i * 101 + (17 if tier == "thorough" else 0)) % (2**31)
 
 
+# eval_aligned workload (pdtverif/aligned.py): which verbs each property looks at, and how many pairs relative to n
+ALIGNED = {
+    "C02": ({"mutate_e": 3, "filter": 2, "arrange": 1.5}, 0.1),
+    "C04": ({"summarize": 2.5, "mutate_a": 2}, 0.1),
+    "C05": ({"mutate_w": 2, "arrange": 1}, 0.1),
+    "C14": (None, 0.3),
+}
+ALIGNED_RULE = (
+    " Plus the eval_aligned workload: the same verb written once over one table and once with some of its columns living in a second "
+    "table / in polars or pandas Series and passed as eval_aligned(...) (foreign-only and mixed element-wise subtrees, with_= forms); the "
+    "plain form is judged against REF, the eval_aligned form must export the same frame without an error."
+)
+
+
 def owned_by(spec, f):
     return any(f.kind.startswith(o) for o in spec["owns"])
 
@@ -189,6 +203,11 @@ def run(run_, prop, n, shard_index=0):
 
             mode_env = out.ref_env.get(f.backend if f.backend in out.ref_env else "pol")
             run_.finding(f, prog, owned=own, reshrink=still, ctx={"ref": mode_env, "real": out.real_env.get(f.backend if f.backend in out.real_env else "pol")})
+    if prop in ALIGNED:
+        from .. import aligned
+
+        verbs, frac = ALIGNED[prop]
+        aligned.run(run_, prop, max(40, int(n * frac)), shard_index, verbs, spec)
     run_.inconclusive_if(judged < max(10, n // 4), f"only {judged} probe exports reached the REF oracle")
     return run_
 
@@ -330,4 +349,4 @@ def finalize(run_, prop):
         run_.inconclusive_if(run_.shard is None and M.SAN.counts.get(inv, 0) == 0 and run_.tier == "quick", f"monitor {inv} evaluated 0 times")
     if prop == "C10":
         run_.inconclusive_if(run_.tier == "quick" and M.SQL.counts.get("statements", 0) == 0, "no SQL statement observed")
-    return run_.finish(spec["rule"], ASSUME_COMMON)
+    return run_.finish(spec["rule"] + (ALIGNED_RULE if prop in ALIGNED else ""), ASSUME_COMMON)
